@@ -228,10 +228,10 @@ class CodeGenerator(nunavut._generators.AbstractGenerator):
     # +-----------------------------------------------------------------------+
     def _handle_overwrite(self, output_path: pathlib.Path, allow_overwrite: bool) -> None:
         if output_path.exists():
-            if allow_overwrite:
+            if allow_overwrite and not output_path.is_dir():
                 output_path.chmod(output_path.stat().st_mode | 0o220)
             else:
-                raise PermissionError("{output_path} exists and allow_overwrite is False.")
+                raise PermissionError(f"{output_path} exists and is a directory or allow_overwrite is False.")
 
     # +-----------------------------------------------------------------------+
     # | AbstractGenerator
